@@ -5,6 +5,10 @@ HERE = os.path.dirname(os.path.dirname(os.path.abspath(__file__)))
 ALL = [f'C{i:02d}' for i in range(1, 21)]
 
 CHECKS = {
+ 'C04': dict(level='exploration', design='3/C04',
+   technique='runtime monitors on the wire log of the loop-back transport: report-vs-commit-diff oracle (provider version history), independent XSD validation of every message, per-subscriber order monitor under writer threads and writer-observed lock-granularity exploration, periodic-store walker',
+   text='For every committed transaction of seeded histories (sync and async subscription managers, single- and multi-MDS MDIBs, two subscribers with different filters) the notifications found on the wire are parsed with lxml, their entities read back and canonicalised, and compared with diff(by_version[v-1], by_version[v]) of the provider history: version group of the commit, exactly the created / updated / deleted descriptors and changed states (union over the reports of the transaction, no entity twice with different content), content equal to the MDIB content at that version, each state under the part of its source MDS, no report kind the subscriber did not subscribe. Every distinct message that crossed the transport (requests, responses, notifications, faults, SubscriptionEnd at shutdown) is validated by an XMLSchema compiled from the bundled xsd files with an own resolver. Order: writer threads (2-6) and a lock-granularity exploration with the writer observed ({7 kinds}^2 x points x k foreign transactions) - per subscriber the MdibVersions of delivered reports must be non-decreasing. The periodic-report store is walked after every commit and flushed periodically: every retained / sent state must equal the content published for the version it is labelled with.',
+   note='Entities in reports are read back with the library reader (cross-checked by C05) before canonical comparison; handles, version groups, SourceMds and report structure are taken from the bytes with lxml only. The periodic send loop is driven by calling the same send functions the loop calls when its timer fires.'),
  'C06': dict(level='fault_enumeration', design='3/C06',
    technique='fault-schedule injection on the loop-back transport between the real provider and consumer (drop / duplicate / hold-back / swap / replay / restart / reload in flight) with online monitors after every delivered or withheld message; provider version history as oracle',
    text='The transport captures every notification of the real provider (acknowledging it so that the subscription stays alive) and delivers the captured bytes to the real consumer according to seeded schedules built from the operators of the property: drop, duplicate immediately / later, hold back and release after further commits, swap neighbours, replay a window, provider restart (new SequenceId and/or InstanceId, MdibVersion continued / lower / higher), application reload, reload with the GetMdib response held in flight while further transactions are committed and their notifications (plus held-back older ones) are delivered from another thread. After every delivered or withheld message: consumer MdibVersion and every per-handle version non-decreasing, a stale or duplicated delivery leaves the canonical snapshot unchanged, lookups agree with a scan, every state held equals the content the provider published under (handle, version), nothing changes between an id change and the reload; after reload + in-order delivery the consumer snapshot equals the provider snapshot.',
